@@ -249,6 +249,8 @@ impl<Key> CacheWeight<Key>
         #[cfg(cached_verif)]
         let _verif_lock = crate::cache::verif::lock_scope("KeyWeightsShard");
         if let Some(mut existing) = self.key_weights.get_mut(key_id) {
+            #[cfg(cached_verif)]
+            crate::cache::verif::point("weight.update.mid");
             {
                 #[cfg(cached_verif)]
                 let _verif_lock_used = crate::cache::verif::lock_scope("WeightUsed");
@@ -274,6 +276,8 @@ impl<Key> CacheWeight<Key>
         if let Some(weight_by_key_hash) = self.key_weights.remove(key_id) {
             #[cfg(cached_verif)]
             drop(_verif_lock);
+            #[cfg(cached_verif)]
+            crate::cache::verif::point("weight.delete.mid");
             #[cfg(cached_verif)]
             let _verif_lock_used = crate::cache::verif::lock_scope("WeightUsed");
             let mut guard = self.weight_used.write();
